@@ -517,12 +517,21 @@ _c01 += _r_harnesses('c01')
 for reg, rn in ((0, 'npc'), (1, 'eqr'), (2, 'spc')):
     for neg in (0, 1):
         for bits in ((0,) if reg == 1 else (0, 255, 6)):
-            _c01.append(H('c01_p_%s_%s%s' % (rn, 'neg' if neg else 'pos', ('_mag' if bits == 255 else '_prod%d' % bits) if bits else ''),
-                          'k_c01_p(%d, %s, %d);' % (reg, 'true' if neg else 'false', bits), tiers=(Q if bits == 0 else T), timeout=2400, mem_gb=6, unwind=3,
-                          stubs=_LIBM, inputs=[('lon', 'f64'), ('lat', 'f64')], replay='c01_all_depths',
-                          covers=['second turn'] + (['product clause reached'] if bits not in (0, 255) else []),
-                          domain='lemma P on the real Layer::d0h_lh_in_d0c: lon %s, %s region: base cell, h and side / range of l against the reference projection (2^-46)%s'
-                                 % ('< 0' if neg else '>= 0', rn, ('; |l| <= t' if bits == 255 else '; exact l for cosines with <= %d significant bits' % bits) if bits else '')))
+            for quarter in range(4):
+                for turn in (0, 1):
+                    nm = 'c01_p_%s_%s_q%d_t%d%s' % (rn, 'neg' if neg else 'pos', quarter, turn, ('_mag' if bits == 255 else '_prod%d' % bits) if bits else '')
+                    _c01.append(H(nm, 'k_c01_p(%d, %s, %d, %d, %d);' % (reg, 'true' if neg else 'false', bits, quarter, turn),
+                                  tiers=T, timeout=3600, mem_gb=6, unwind=3,
+                                  stubs=_LIBM, inputs=[('lon', 'f64'), ('lat', 'f64')], replay='c01_all_depths',
+                                  covers=['domain non empty'] + (['product clause reached'] if bits not in (0, 255) else []),
+                                  domain='lemma P on the real Layer::d0h_lh_in_d0c: lon %s, quarter %d of the %s turn(s), %s region: base cell, h and side of l against the reference projection (2^-46)%s'
+                                         % ('< 0' if neg else '>= 0', quarter, 'first' if turn == 0 else 'later', rn,
+                                            ('; |l| <= t' if bits == 255 else '; exact l for cosines with <= %d significant bits' % bits) if bits else '')))
+for reg, rn in ((0, 'npc'), (1, 'eqr'), (2, 'spc')):
+    for neg in (0, 1):
+        _c01.append(H('c01_b_%s_%s' % (rn, 'neg' if neg else 'pos'), 'k_c01_b(%d, %s);' % (reg, 'true' if neg else 'false'), tiers=Q, timeout=2400, mem_gb=6, unwind=3,
+                      stubs=_LIBM, inputs=[('lon', 'f64'), ('lat', 'f64')], replay='c01_all_depths', covers=['second turn'],
+                      domain='coarse placement on the real Layer::d0h_lh_in_d0c: lon %s, %s region: the reference projection lies within 2^-20 of the returned base cell' % ('< 0' if neg else '>= 0', rn)))
 for (lo, hi) in ((0, 0), (1, 8), (9, 16), (17, 29)):
     _c01.append(H('c01_s_d%d_%d' % (lo, hi), 'k_c01_s(%d, %d);' % (lo, hi), tiers=Q, timeout=1800, mem_gb=8, unwind=max(4, hi + 1),
                   stubs=[(a, b % 'c01') for a, b in _CUT], inputs=[('depth', 'u8'), ('d0h', 'u8'), ('l', 'f64'), ('h', 'f64')], replay='c01_pullback',
@@ -567,9 +576,11 @@ _c17 = []
 for reg, rn in ((0, 'npc'), (1, 'eqr'), (2, 'spc')):
     for neg in (0, 1):
         sfx = '%s_%s' % (rn, 'neg' if neg else 'pos')
-        _c17.append(H('c17_proj_' + sfx, 'k_c17_proj(%d, %s);' % (reg, 'true' if neg else 'false'), tiers=Q, timeout=2400, mem_gb=6, unwind=3, stubs=_LIBM,
-                      inputs=[('lon', 'f64'), ('lat', 'f64')], replay='c17_native', covers=['second turn', 'pole or equator'] if reg != 1 else ['second turn'],
-                      domain='proj: every double lon %s in [-25.2, 25.2], every lat of the %s region: range, sign, image facets' % ('< 0' if neg else '>= 0', rn)))
+        for image in ((1,) if reg == 1 else (0, 1)):
+            _c17.append(H('c17_proj_%s%s' % ('' if image else 'basic_', sfx), 'k_c17_proj(%d, %s, %s);' % (reg, 'true' if neg else 'false', 'true' if image else 'false'),
+                          tiers=(Q if (reg == 1 or not image) else T), timeout=3600, mem_gb=6, unwind=3, stubs=_LIBM,
+                          inputs=[('lon', 'f64'), ('lat', 'f64')], replay='c17_native', covers=['second turn', 'pole or equator'],
+                          domain='proj: every double lon %s in [-25.2, 25.2], every lat of the %s region: range, sign%s' % ('< 0' if neg else '>= 0', rn, ', image facets' if image else '')))
         _c17.append(H('c17_proj_ref_' + sfx, 'k_c17_proj_ref(%d, %s);' % (reg, 'true' if neg else 'false'), tiers=Q if reg == 1 else T, timeout=2400, mem_gb=6, unwind=3,
                       stubs=_LIBM, inputs=[('lon', 'f64'), ('lat', 'f64')], replay='c17_native', covers=['second turn'] + (['polar product clause reached'] if reg != 1 else []),
                       domain='proj: same domain: agreement with the reference formulae within 2^-46 (polar caps: y for every position, x for cosines with <= 6 significant bits)'))
@@ -592,7 +603,8 @@ PROPS['C17'] = dict(
     functions=['proj', 'unproj', 'abs_sign_decompose', 'pm1_offset_decompose', 'proj_cea', 'proj_collignon', 'deproj_cea', 'deproj_collignon',
                'apply_offset_and_signs', 'check_lat', 'check_y', 'base_cell_from_proj_coo', 'ensures_x_is_positive'],
     bounds={'all': 'every double in the stated domains (|lon| <= 25.2); no loops'},
-    outside='the two round trips within 1e-14 are NOT decided by the solver (they depend on the accuracy of the actual libm, not on a contract): they are evaluated '
+    outside='quick tier: the image clause of proj in the polar caps (guarantee I used by the plane-cut harnesses of C03 / C11 / C19) and the polar reference clause run in the thorough tier only (25+ min each); '
+            'the two round trips within 1e-14 are NOT decided by the solver (they depend on the accuracy of the actual libm, not on a contract): they are evaluated '
             'only by the native oracle when a counter-example is replayed; base_cell_from_proj_coo vs. the depth-0 hash likewise',
     assumptions=_LIBM_ASSUME,
 )
